@@ -45,6 +45,9 @@ def _strategy():
                 "req_addr": req_addr if req_addr is not None else addrs[7] * 2 + 1,
                 "pgns": [0xEE00] + draw(st.lists(st.one_of(st.sampled_from(PGN_B), st.integers(0, 0x3FFFF)), min_size=2, max_size=3)),
                 "tx_time": draw(st.sampled_from([0.0, 0.0, 0.002, 0.005])),
+                # after the sweep: one more global request during which the first request callback of CA k of stack 0 removes its
+                # own CA from the ECU (remove_ca) - the stack's other CAs are still asked, once each
+                "remove": draw(st.sampled_from([None, None, 0, 1])),
                 "lat": draw(st.lists(st.sampled_from(simbus.LATENCY_GRID[1:6]), min_size=1, max_size=2))}
     return build()
 
@@ -59,6 +62,7 @@ class C14:
             "moved to the next address after a lost contest) and 1-3 request callbacks (one of which may unsubscribe itself at its first "
             "call), 3-4 requested PGNs (always 0xEE00, boundaries of the 18-bit space "
             "incl. data page 1, random) ; inside the case every destination 0..255 is requested for every PGN ('subruns'); "
+            "in half of the cases one more global request follows during which a CA of stack 0 removes itself from its ECU inside its request callback; "
             "non-trivial = configuration with at least one address-less responder CA or at least two responder CAs; distinct = "
             "distinct configurations; exhaustive over destinations per configuration")
     ASSUMPTIONS = [
@@ -228,6 +232,39 @@ class C14:
                 else:
                     continue
                 break
+            # ---- removal phase
+            rm = p.get("remove")
+            cas0 = [(stk, nm, ca, nv, c) for (stk, nm, ca, nv, c) in resp if nm.startswith("S0.")]
+            if rm is not None and rm < len(cas0) and len(cas0) >= 2 and p["req_has_addr"] and not viol:
+                stk0, nm_r, ca_r, nv_r, c_r = cas0[rm]
+                removed = []
+
+                def remover(src, dest, pgn):
+                    if not removed:
+                        removed.append(stk0.ecu.remove_ca(c_r["addr"]))
+                # (registered through the public API; it runs after the CA's other callbacks - the removal still happens inside
+                # the dispatch of this request to the stack's CAs)
+                ca_r.subscribe_request(remover)
+                own = {nm: (ca.state, ca.device_address) for (stk, nm, ca, nv, c) in resp}
+                reg0 = set(registered)
+                calls.clear()
+                pgn_r = 0xFEDA
+                qca.send_request(0, pgn_r, 255)
+                w.run_for(settle)
+                if own[nm_r][0] == State.NORMAL and removed == [True] and \
+                        {nm: (ca.state, ca.device_address) for (stk, nm, ca, nv, c) in resp} == own:
+                    nreq += 1
+                    src = p["req_addr"]
+                    got_calls = sorted(("S%d.c%d#%d" % (i, k, m), s_, d_, g_) for (i, k, m, s_, d_, g_) in calls)
+                    exp_calls = sorted(("S%d.c%d#%d" % (i, k, m), src, 255, pgn_r) for (i, k, m) in reg0
+                                       if own["S%d.c%d" % (i, k)][0] == State.NORMAL)
+                    # (the removed CA's own callbacks ran before the remover; the ones of the others are what is judged)
+                    miss = [c_ for c_ in exp_calls if c_ not in got_calls]
+                    if miss:
+                        V("callback-missing", "global request during which CA %s removed itself from its ECU (remove_ca inside its request "
+                          "callback): operational CAs of the same stack were not asked: missing %r" % (nm_r, miss[:3]), "remove_ca")
+                    elif any(got_calls.count(c_) > 1 for c_ in got_calls):
+                        V("callback-duplicate", "global request with remove_ca inside a callback: %r" % (got_calls[:4],), "remove_ca")
             live = w.liveness_problems()
             actual = sorted({"%s->%s" % (c["state"], {State.NONE: "NONE", State.WAIT_VETO: "WAIT_VETO", State.NORMAL: "NORMAL",
                                                        State.CANNOT_CLAIM: "CANNOT_CLAIM"}.get(ca.state, "?") +
